@@ -5,6 +5,7 @@ Model: MpycV.Model.Comm (send/receive patterns of transfer, _distribute, output,
 `_receive_message` for i, and neither side repeats a peer — so every message is consumed once.
 -/
 import MpycV.Lemmas.Comm
+import Mathlib.Data.List.Dedup
 
 namespace MpycV.C07
 open MpycV.Comm
@@ -181,6 +182,17 @@ senders, in sender order (so with `senders` given as a list, position k holds se
 theorem transfer_routes {α : Type} (obj : Nat → α) (j : Nat) (S R : List Nat) :
     transferResult obj (transferMySenders j S R) = if j ∈ R then S.map obj else [] := by
   unfold transferResult transferMySenders; split <;> simp
+
+/-- **output for ANY receiver list** (repo fix: `Runtime.output` removes repeated parties from `receivers`, keeping the
+order of first occurrence; `List.dedup` keeps last occurrences — the two lists have the same members and no repetitions,
+which is all the statement uses): the no-repetition hypothesis of `output_exactly_one_consumer` is established by the code -/
+theorem output_exactly_one_consumer_dedup (m t i j : Nat) (R : List Nat)
+    (hi : i < m) (hj : j < m) (ht : t < m) :
+    (j ∈ outSends m t i R.dedup ↔ i ∈ outRecvs m t j R.dedup) ∧
+    (outSends m t i R.dedup).Nodup ∧ (outRecvs m t j R.dedup).Nodup ∧ i ∉ outSends m t i R.dedup ∧
+    (∀ k, k ∈ R.dedup ↔ k ∈ R) := by
+  obtain ⟨h1, h2, h3, h4⟩ := output_exactly_one_consumer m t i j R.dedup hi hj ht (List.nodup_dedup R)
+  exact ⟨h1, h2, h3, h4, fun k => List.mem_dedup⟩
 
 /-! ### non-vacuity -/
 example : outSends 5 2 3 [0, 1, 4] = [0, 4] ∧ outRecvs 5 2 0 [0, 1, 4] = [3, 4] ∧
